@@ -64,6 +64,7 @@ type Case struct {
 	FailNode int           `json:"failnode"` // ... on this node
 	Seed     uint64        `json:"seed"`    // latency PRNG
 	GenSeed  uint64        `json:"genseed"` // generator seed (regenerates the case)
+	Mount    bool          `json:"mount"`    // the destination also implements registry.Mounter; MountFrom returns candidates
 	Thorough bool          `json:"thorough"` // generated with the thorough-tier size distribution
 }
 
@@ -89,6 +90,7 @@ type rec struct {
 	dstMax int
 	lmu    sync.Mutex
 	lat    *common.Rand
+	bytes  [][]byte // generator's bytes per node (what a successful mount makes available)
 }
 
 func (r *rec) node(d ocispec.Descriptor) int {
@@ -100,7 +102,9 @@ func (r *rec) node(d ocispec.Descriptor) int {
 
 func (r *rec) ev(tok string, dsrc, ddst int) {
 	r.mu.Lock()
-	r.toks = append(r.toks, tok)
+	if tok != "" {
+		r.toks = append(r.toks, tok)
+	}
 	r.srcIn += dsrc
 	r.dstIn += ddst
 	if r.srcIn > r.srcMax {
@@ -282,6 +286,59 @@ func (d *dstW) Tag(ctx context.Context, t ocispec.Descriptor, ref string) error 
 
 func (d *dstW) Resolve(ctx context.Context, ref string) (ocispec.Descriptor, error) {
 	return d.under.Resolve(ctx, ref)
+}
+
+// mount is the body of registry.Mounter.Mount for the wrappers: the candidate repository
+// either has the blob (PRNG choice; the blob appears in the destination without any
+// source read) or the content is requested through getContent and uploaded, as
+// remote.Repository does after a 202 answer.
+func (d *dstW) mount(ctx context.Context, t ocispec.Descriptor, fromRepo string, getContent func() (io.ReadCloser, error)) error {
+	n := d.r.node(t) // no digest lock here: getContent re-enters the wrappers; mount cases have no twins
+	d.r.ev(fmt.Sprintf("MB.%d", n), 0, 1)
+	d.r.delay()
+	d.r.lmu.Lock()
+	hit := d.r.lat.Intn(3) == 0
+	d.r.lmu.Unlock()
+	if hit && n >= 0 {
+		if err := d.under.Push(ctx, t, bytes.NewReader(d.r.bytes[n])); err != nil {
+			d.r.ev(fmt.Sprintf("ME.%d.e", n), 0, -1)
+			return err
+		}
+		d.r.delay()
+		d.r.ev(fmt.Sprintf("ME.%d.m", n), 0, -1)
+		return nil
+	}
+	rc, err := getContent()
+	if err != nil {
+		if errors.Is(err, errInjected) {
+			d.r.ev("", 0, -1) // the failing PreCopy was recorded as CF; the task is dead for the model
+		} else {
+			d.r.ev(fmt.Sprintf("ME.%d.s", n), 0, -1)
+		}
+		return fmt.Errorf("cannot read source blob: %w", err)
+	}
+	err = d.under.Push(ctx, t, rc)
+	rc.Close()
+	d.r.delay()
+	if err != nil {
+		d.r.ev(fmt.Sprintf("ME.%d.e", n), 0, -1)
+		return err
+	}
+	d.r.ev(fmt.Sprintf("ME.%d.c", n), 0, -1)
+	return nil
+}
+
+// dstWMount: Tagger + Mounter; dstWRefMount: ReferencePusher + Mounter (a remote repository).
+type dstWMount struct{ *dstW }
+
+func (d dstWMount) Mount(ctx context.Context, t ocispec.Descriptor, fromRepo string, getContent func() (io.ReadCloser, error)) error {
+	return d.mount(ctx, t, fromRepo, getContent)
+}
+
+type dstWRefMount struct{ dstWRef }
+
+func (d dstWRefMount) Mount(ctx context.Context, t ocispec.Descriptor, fromRepo string, getContent func() (io.ReadCloser, error)) error {
+	return d.mount(ctx, t, fromRepo, getContent)
 }
 
 // dstWRef additionally implements registry.ReferencePusher (push + tag in one call).
@@ -466,6 +523,7 @@ func Execute(c *Case) *Result {
 	r := &rec{idx: map[dkeyT]int{}, lat: common.NewRand(c.Seed)}
 	for _, n := range g.Nodes {
 		r.idx[keyOf(n.Desc)] = n.ID
+		r.bytes = append(r.bytes, n.Bytes)
 	}
 	sw := &srcW{r: r, under: src}
 	dw := &dstW{r: r, under: dst}
@@ -490,8 +548,20 @@ func Execute(c *Case) *Result {
 		OnCopySkipped: cb("skip"),
 		OnMounted:     cb("mounted"),
 		MountFrom: func(_ context.Context, d ocispec.Descriptor) ([]string, error) {
-			r.ev(fmt.Sprintf("CB.mountfrom.%d", r.node(d)), 0, 0)
-			return nil, nil
+			n := r.node(d)
+			if c.FailCb == "mountfrom" && c.FailNode == n {
+				r.ev(fmt.Sprintf("CF.mountfrom.%d", n), 0, 0)
+				return nil, errInjected
+			}
+			r.ev(fmt.Sprintf("CB.mountfrom.%d", n), 0, 0)
+			r.delay()
+			if !c.Mount {
+				return nil, nil
+			}
+			r.lmu.Lock()
+			k := r.lat.Intn(4)
+			r.lmu.Unlock()
+			return []string{"repo/a", "repo/b", "repo/c"}[:min(k, 3)], nil
 		},
 	}
 
@@ -500,7 +570,11 @@ func Execute(c *Case) *Result {
 		defer close(done)
 		switch c.Mode {
 		case "g":
-			res.Err = oras.CopyGraph(ctx, sw, dw, g.Nodes[c.Root].Desc, gopts)
+			var d content.Storage = dw
+			if c.Mount {
+				d = dstWMount{dw}
+			}
+			res.Err = oras.CopyGraph(ctx, sw, d, g.Nodes[c.Root].Desc, gopts)
 		default:
 			opts := oras.CopyOptions{CopyGraphOptions: gopts}
 			if c.MapRoot >= 0 {
@@ -524,8 +598,13 @@ func Execute(c *Case) *Result {
 				s = srcWRef{sw}
 			}
 			var d oras.Target = dw
-			if c.Mode == "r" {
+			switch {
+			case c.Mode == "r" && c.Mount:
+				d = dstWRefMount{dstWRef{dw}}
+			case c.Mode == "r":
 				d = dstWRef{dw}
+			case c.Mount:
+				d = dstWMount{dw}
 			}
 			res.Returned, res.Err = oras.Copy(ctx, s, c.SrcRef, d, c.DstRef, opts)
 		}
@@ -621,7 +700,11 @@ func ModelInput(res *Result) string {
 	}
 	d0 := append([]int(nil), c.D0...)
 	sort.Ints(d0)
-	return fmt.Sprintf("%d %d %s %d %s %s %s %s rp=%s:%d:%d:%d", len(g.Nodes), c.K, c.Mode, root, ints(cached0),
+	mode := c.Mode
+	if c.Mount {
+		mode += "m"
+	}
+	return fmt.Sprintf("%d %d %s %d %s %s %s %s rp=%s:%d:%d:%d", len(g.Nodes), c.K, mode, root, ints(cached0),
 		strings.Join(nodes, ";"), ints(d0), tr, c.Stream, c.GenSeed, b2i(c.Thorough), c.Seed)
 }
 
